@@ -1,7 +1,8 @@
 """C06 - construction stores every particle once, in the right leaf, bit-exactly; execute never alters them."""
 from .treecommon import D, ASSUME, finish, run_specs
+from .. import e1
 
-TEXT = ('bounded symbolic execution (irsym+z3) of the real TbfTree constructor (sorter, group split, particle/cell containers, memory blocks): every placement of the '
+TEXT = ('cbmc (bit-precise IEEE) on the position -> grid-coordinate function for an arbitrary float/double position in fixed dyadic and non-dyadic boxes; bounded symbolic execution (irsym+z3) of the real TbfTree constructor (sorter, group split, particle/cell containers, memory blocks): every placement of the '
         'particles on the half lattice of the bounded trees is a path; per path: each original index exactly once, leaf box = integer-exact oracle, data rows bit-identical '
         '(extra values symbolic 64-bit patterns), rhs and every multipole/local byte initialised and zero (uninitialised bytes are tracked), and all of it unchanged by execute()')
 
@@ -24,7 +25,19 @@ def run(ctx):
     ctx.bounds.update(dict(trees='Dim 1-3 (4 thorough), heights 2-4 (6 thorough), 2-3 particles, block sizes 1..N+1, both grouping modes (forked)',
                            data='0-3 extra data values per particle, symbolic bit patterns when DataType == RealType; float/double; DataType != RealType',
                            boxes='unit box; box centre (-3.25, 7, 0.125, 2.5) widths (2, 0.5, 8, 3)',
-                           outside='positions off the half lattice; non-dyadic boxes (FP binning with rounding); larger N'))
-    ctx.assumptions += ASSUME
+                           outside='whole-tree runs use half-lattice positions of dyadic boxes; arbitrary (off-lattice) positions and non-dyadic boxes are covered for the binning function only (cbmc, fixed boxes listed in the queries); larger N'))
+    # off-lattice positions: the binning function on an arbitrary float/double position inside the closed box (cbmc, bit-precise IEEE)
+    K = []
+    boxes = [('1.0', '0.5'), ('0.3', '0.1'), ('8.0', '0.125')] if q else [('1.0', '0.5'), ('0.3', '0.1'), ('8.0', '0.125'), ('3.0', '2.5'), ('0.7', '-11.3')]
+    for real in ('float', 'double'):
+        for h in ((1, 4, 7) if q else (1, 2, 3, 4, 5, 6, 7, 9)):
+            for bw, bc in boxes:
+                if real == 'double' and q and (h != 4): continue
+                K.append(dict(name='bin.%s.h%d.w%s' % (real, h, bw), wrapper='w_c06_bin.cpp', wdefs=['REALT=%s' % real, 'HEIGHT=%d' % h, 'BOXW=%s' % bw, 'BOXC=%s' % bc],
+                              harness='h_c06_bin.c', entry='h_c06_bin', hdefs=['REAL=%s' % real, 'HEIGHT=%d' % h, 'BOXW=%s' % bw], umax=40, timeout=300 if q else 1200, flavour='plain',
+                              note='arbitrary %s position in the closed box of width %s centred at %s, height %d: coordinate in the grid and position inside the leaf bounds' % (real, bw, bc, h)))
+    if getattr(ctx, 'only', None): K = [x for x in K if ctx.only in x['name']]
+    e1.run_many(ctx, K, jobs=8)
+    ctx.assumptions += ASSUME + ['binning queries: IR flavour NDEBUG (the library assertion on the relative position is the harness assumption), Dim 1 (the per-dimension computation is the same code for every dimension)']
     run_specs(ctx, 'w_tree.cpp', 'h_c06', T, expect_reach=(120, 121, 123, 124, 125))
     return finish(ctx, TEXT)
